@@ -735,12 +735,23 @@ class VarsManager(object):
         p = self.variables[name + "i"]
         if r < 0:
             r.assign(tf.abs(r))
-            if type(self.complex_vars[name]) == list:
-                for name_r in self.complex_vars[name]:
-                    self.variables[name_r[:-1] + "i"].assign_add(np.pi)
-            else:
-                p.assign_add(np.pi)
-        self._std_polar_angle(p)
+            # the radius may be shared (set_share_r): every variable that
+            # uses it needs the phase shift, each phase variable only once
+            shared_r = [name + "r"]
+            for same_i in self.same_list:
+                if name + "r" in same_i:
+                    shared_r = same_i
+                    break
+            shifted = []
+            for name_r in shared_r:
+                if not name_r.endswith("r"):
+                    continue
+                p_i = self.variables.get(name_r[:-1] + "i", None)
+                if p_i is None or any(p_i is j for j in shifted):
+                    continue
+                shifted.append(p_i)
+                p_i.assign_add(np.pi)
+        p.assign(self._std_polar_angle(p))
 
     def std_polar_all(self):  # std polar expression: r>0, -pi<p<pi
         """
